@@ -29,9 +29,7 @@ theorem seesPanic_of_proved (c : Cfg) (h : Proved c) (v : Option Nat) : seesPani
   cases v with
   | some _ => rfl
   | none =>
-    rcases h with h | ⟨h1, h2⟩
-    · simp [seesPanic, h]
-    · simp [seesPanic, h1, h2]
+    simp [seesPanic, show c.detect = .finishedFlag from h]
 
 theorem count_finish (c : Cfg) (ok : Bool) (l : LoopEnd) :
     (finish c ok l).1.count .commit + (finish c ok l).1.count .rollback = 1 := by
@@ -281,10 +279,67 @@ theorem combine_spec (c : Cfg) (commitOk : Bool) (fns : List StepOutcome) (hne :
         · exact absurd h n2.1
         · right; right; exact h
 
+/-- the step events of a run: indices `k, k+1, …` of the all-ok prefix and of the first failing step -/
+def ranSteps : Nat → List StepOutcome → List Event
+  | _, [] => []
+  | k, .ok :: rest => .step k :: ranSteps (k+1) rest
+  | k, _ :: _ => [.step k]
+
+theorem runSteps_events (k : Nat) (steps : List StepOutcome) : (runSteps k steps).1 = ranSteps k steps := by
+  induction steps generalizing k with
+  | nil => rfl
+  | cons o rest ih => cases o <;> simp [runSteps, ranSteps, ih]
+
+/-- exact shape and order of the events: `begin`, then the steps in list order up to and including the first failing
+    one, then exactly one finishing event — commit if all steps were ok, rollback otherwise -/
+theorem tx_events_shape (c : Cfg) (hc : Proved c) (commitOk : Bool) (steps : List StepOutcome) (hne : steps ≠ []) :
+    (transact c true commitOk steps).1 =
+      .begin :: (ranSteps 0 steps ++ [if allOk steps then Event.commit else Event.rollback]) := by
+  cases steps with
+  | nil => exact absurd rfl hne
+  | cons o rest =>
+    have hiff := runSteps_completed_iff 0 (o :: rest)
+    simp only [transact, Bool.not_true, Bool.false_eq_true, if_false, runSteps_events]
+    cases hl : (runSteps 0 (o :: rest)).2 with
+    | completed => simp [finish, hiff.1 hl]
+    | failed e =>
+      have : allOk (o :: rest) = false := by
+        cases h : allOk (o :: rest) with
+        | false => rfl
+        | true => rw [hiff.2 h] at hl; cases hl
+      simp [finish, this]
+    | panicked v =>
+      have : allOk (o :: rest) = false := by
+        cases h : allOk (o :: rest) with
+        | false => rfl
+        | true => rw [hiff.2 h] at hl; cases hl
+      simp [finish, seesPanic_of_proved c hc, this]
+
+/-- `Combine` stops at the first failing function: it invokes exactly the all-ok prefix plus that function -/
+theorem combine_early_exit (pre post : List StepOutcome) (bad : StepOutcome) (hpre : allOk pre = true)
+    (hbad : isOk bad = false) :
+    combineRan (pre ++ bad :: post) = pre.length + 1 ∧ combine (pre ++ bad :: post) = bad := by
+  induction pre with
+  | nil => cases bad <;> simp [combineRan, combine, isOk] at hbad ⊢
+  | cons o rest ih =>
+    cases o <;> simp [allOk_cons, isOk] at hpre
+    have := ih hpre
+    simp [combineRan, combine, this]; omega
+
+theorem combine_all_ok (fns : List StepOutcome) (h : allOk fns = true) :
+    combineRan fns = fns.length ∧ combine fns = .ok := by
+  induction fns with
+  | nil => simp [combineRan, combine]
+  | cons o rest ih =>
+    cases o <;> simp [allOk_cons, isOk] at h
+    have := ih h
+    simp [combineRan, combine, this]; omega
+
 /-! ### non-vacuity and the witness for the unrepaired detection -/
 
 example : Proved ⟨.finishedFlag, true⟩ := by decide
-example : Proved ⟨.recoverNonNil, false⟩ := by decide
+example : Proved ⟨.finishedFlag, false⟩ := by decide
+example : ¬ Proved ⟨.recoverNonNil, false⟩ := by decide
 
 /-- a concrete non-trivial run: second step panics ⇒ rollback, third never runs -/
 example : transact ⟨.finishedFlag, true⟩ true true [.ok, .panic 7, .ok] =
